@@ -341,6 +341,7 @@ def run(ctx):
     r4 = ctx.rule("C04.R4", "every call from the analysed set into a third-party crate is listed with its precondition; preconditions "
                             "whose violation panics inside the dependency are guarded", "call inventory + TABLE")
     next_ = {}
+    ext_sites = []
     for p in sorted(reach):
         f = prog.funcs[p]
         if f.derived:
@@ -358,14 +359,23 @@ def run(ctx):
                 n = next_.get(base, 0)
                 next_[base] = n + 1
                 ent = T.lookup(T.EXTERNAL, base, 0) or (None if base in T.EXTERNAL_NO_WILDCARD else T.lookup(T.EXTERNAL, "*|ext|%s" % model.short_callee(cp), 0))
-                if ent is None:
-                    r4.violation(base, "call into %s (%s) without a recorded precondition review" % (kr, cp), loc(t.sp))
-                else:
-                    problems = check_requires(ctx, prog, ent.get("requires", []))
-                    if problems:
-                        r4.violation(base, "precondition guard missing: %s (%s)" % ("; ".join(problems), ent["why"]), loc(t.sp))
-                    else:
-                        r4.ok(base, ent["why"], loc(t.sp), how="TABLE")
+                ext_sites.append((p, t, base, ent, kr, cp))
+    callers_of = {}
+    for (p, t, base, ent, kr, cp) in ext_sites:
+        if ent is not None:
+            callers_of.setdefault(id(ent), set()).add(p)
+    for (p, t, base, ent, kr, cp) in ext_sites:
+        if ent is None:
+            r4.violation(base, "call into %s (%s) without a recorded precondition review" % (kr, cp), loc(t.sp))
+        else:
+            # a wildcard entry is shared by several callers: a requirement that names one of them is reported at that caller only
+            here = [rq for rq in ent.get("requires", [])
+                    if not (len(rq) > 1 and isinstance(rq[1], str) and rq[1] in callers_of[id(ent)] and rq[1] != p)]
+            problems = check_requires(ctx, prog, here)
+            if problems:
+                r4.violation(base, "precondition guard missing: %s (%s)" % ("; ".join(problems), ent["why"]), loc(t.sp))
+            else:
+                r4.ok(base, ent["why"], loc(t.sp), how="TABLE")
     r4.floor(10, "external call sites")
 
     # ---- R5 rejected packet leaves the receiver usable (narrow) --------------------------------------
